@@ -63,6 +63,7 @@ var guardTable = []guardRow{
 	{"fixtures/fx.rwGuarded", "fixtures/fx.rwGuarded.mu", []string{"v", "items"}, false, false},
 	{"fixtures/fx.GoodB", "fixtures/fx.GoodB.mu", []string{"keep"}, false, false},
 	{"fixtures/fx.GoodE1", "fixtures/fx.GoodE1.mu", []string{"log", "recent", "next"}, false, false},
+	{"fixtures/fx.batcher", "fixtures/fx.batcher.mu", []string{"batch"}, false, false},
 	{"fixtures/fx.BadBShallow", "fixtures/fx.BadBShallow.mu", []string{"keep"}, false, false},
 	{"fixtures/fx.rmw", "fixtures/fx.rmw.mu", []string{"total"}, false, false},
 	{"fixtures/fx.rmw", "fixtures/fx.rmw.mu", []string{"stats"}, true, false},
